@@ -14,12 +14,21 @@ import ast
 from .model import dotted_chain
 
 
+_BUILTIN_METHOD_NAMES = frozenset(n for ty in (dict, list, str, bytes, bytearray, set, frozenset, tuple, int, float) for n in dir(ty)) | frozenset(
+    ["read", "write", "close", "flush", "readline", "readlines", "writelines", "seek", "tell", "encode", "decode", "sign", "verify", "public_key", "public_bytes", "private_bytes", "parse_args", "add_argument", "add_parser", "set_defaults", "add_subparsers", "communicate", "group", "match", "search", "fullmatch"]
+)
+
+
 class CallGraph:
     def __init__(self, prog):
         self.prog = prog
         self.edges = {}  # qualname -> set(qualname)
         self.sites = {}  # qualname -> list of (node, kind, target string)
         self.counts = {"repo": 0, "external": 0, "builtin": 0, "method-on-value": 0, "dynamic": 0}
+        self._repo_method_names = {}
+        for q, fi in prog.funcs.items():
+            if fi.cls and "." not in q[len(fi.mod.short) + 1 + len(fi.cls) + 1 :]:
+                self._repo_method_names.setdefault(q.rsplit(".", 1)[1], []).append(q)
         for q, fi in prog.funcs.items():
             self._scan(fi)
 
@@ -108,6 +117,10 @@ class CallGraph:
                         if len(rest) == 1:
                             m = prog.find_method(r[1], rest[0])
                             kind, tgt = self._classify_methods([m] if m else [], edges)
+                        elif len(rest) == 2 and (prog.find_method(r[1], rest[1]) or ("",))[0] == "repo" and (prog.find_method(r[1], rest[0]) or ("",))[0] != "repo":
+                            # Class.MEMBER.method(...): an Enum member / class-level instance
+                            m = prog.find_method(r[1], rest[1])
+                            kind, tgt = self._classify_methods([m], edges)
                         else:
                             kind, tgt = "repo", r[1]
                     elif r[0] == "builtin":
@@ -120,6 +133,11 @@ class CallGraph:
                         kind = "dynamic"
                 elif isinstance(f, ast.Attribute):
                     kind, tgt = "method-on-value", f.attr
+                if kind in ("method-on-value", "dynamic") and isinstance(f, ast.Attribute) and f.attr in self._repo_method_names and f.attr not in _BUILTIN_METHOD_NAMES:
+                    # a method call on a value: by name, any repository method it could be (class
+                    # hierarchy analysis by name; reachability is over-approximated, never missed)
+                    for mq in self._repo_method_names[f.attr]:
+                        edges.add(mq)
                 self.counts[kind] = self.counts.get(kind, 0) + 1
                 sites.append((n, kind, tgt))
                 # function values passed or stored: registries
